@@ -68,10 +68,10 @@ var enumerated = map[string][]string{
 	"registry.consul.addr":           {"localhost:8500", "https://consul.example.com:8501/", "HTTP://Consul:8500/ui", "consul:8500"},
 	"proxy.addr": {":9999", ":1234;proto=tcp", ":80,:443;proto=tcp+sni", "1.2.3.4:5555;rt=5s;wt=1m;it=30s", ":1;pxyproto=true", ":1;pxyproto=true;pxytimeout=3s",
 		"addr=:7777;proto=grpc", ":9999;proto=bogus", ":9999;rt=xx", "", ",", ";", "\"\"", ",,;", "proto=tcp", ":1;proto=tcp-dynamic;refresh=5s", ":1,:2,:3", "\":99\";proto=\"http\"", ":443;proto=https"},
-	"ui.addr":    {":9998", "127.0.0.1:7000", ":1;rt=3s", ":1,:2", "", ":1;proto=nope", ",", ";", ";;,", "\"\"", "''", "=", "rt=3s"},
-	"proxy.cs":   {"cs=a;type=file;cert=/c.pem;key=/k.pem", "cs=b;type=path;cert=/certs;refresh=7s", "cs=c;type=http;cert=http://h/certs;hdr=X-Token: abc", "cs=d;type=vault;cert=secret/fabio/cert", "cs=e;type=nope;cert=x", "cs=f;type=file", "", ",", ";", "\"\"", "cs=a;type=file;cert=/c.pem,cs=b;type=consul;cert=http://c/v1/kv/x"},
-	"proxy.auth": {"name=a;type=basic;file=/etc/htpasswd", "name=a;type=basic;file=/x;realm=R;refresh=10s", "name=b;type=basic;file=/x;refresh=1ms", "name=c;type=oauth", "type=basic;file=/x", "", ",", ";", "\"\"", "name=a;type=basic;file=/x,name=b;type=basic;file=/y"},
-	"bgp.peers":  {"address=1.2.3.4;asn=65001", "address=1.2.3.4;asn=65001;port=179;multihop=true;multihoplength=3;password=pw", "address=1.2.3.4;asn=x", "", ",", ";", "\"\"", "address=10.0.0.1;asn=1,address=10.0.0.2;asn=2"},
+	"ui.addr":             {":9998", "127.0.0.1:7000", ":1;rt=3s", ":1,:2", "", ":1;proto=nope", ",", ";", ";;,", "\"\"", "''", "=", "rt=3s"},
+	"proxy.cs":            {"cs=a;type=file;cert=/c.pem;key=/k.pem", "cs=b;type=path;cert=/certs;refresh=7s", "cs=c;type=http;cert=http://h/certs;hdr=X-Token: abc", "cs=d;type=vault;cert=secret/fabio/cert", "cs=e;type=nope;cert=x", "cs=f;type=file", "", ",", ";", "\"\"", "cs=a;type=file;cert=/c.pem,cs=b;type=consul;cert=http://c/v1/kv/x"},
+	"proxy.auth":          {"name=a;type=basic;file=/etc/htpasswd", "name=a;type=basic;file=/x;realm=R;refresh=10s", "name=b;type=basic;file=/x;refresh=1ms", "name=c;type=oauth", "type=basic;file=/x", "", ",", ";", "\"\"", "name=a;type=basic;file=/x,name=b;type=basic;file=/y"},
+	"bgp.peers":           {"address=1.2.3.4;asn=65001", "address=1.2.3.4;asn=65001;port=179;multihop=true;multihoplength=3;password=pw", "address=1.2.3.4;asn=x", "", ",", ";", "\"\"", "address=10.0.0.1;asn=1,address=10.0.0.2;asn=2"},
 	"proxy.noroutestatus": {"404", "503", "100", "999", "99", "1000", "0"},
 	"glob.cache.size":     {"1000", "1", "17"},
 }
